@@ -1,0 +1,256 @@
+//! Verification hooks. Compiled only with `--cfg gm_rs_verif`; the default build does not
+//! contain this module and none of the call sites below.
+//!
+//! * observation / override of the 32 random bytes that become a secret scalar candidate
+//! * public wrappers around crate-private arithmetic so that an external monitor can compare
+//!   it with a reference model
+use std::cell::RefCell;
+use std::collections::VecDeque;
+
+use crate::fields::fp::Fp;
+use crate::points::{Point, TwistPoint};
+use crate::u256::U256;
+
+pub use crate::fields::fp12::Fp12;
+pub use crate::fields::fp2::Fp2;
+pub use crate::fields::fp4::Fp4;
+
+/// Per-thread record of what the scalar generator saw (same sharing discipline as `thread_rng`).
+#[derive(Default)]
+pub struct RngLog {
+    /// every candidate handed to the range test, after a possible override
+    pub candidates: Vec<[u8; 32]>,
+    /// `true` where the candidate came from the injection queue
+    pub injected: Vec<bool>,
+    /// every scalar that left the generator
+    pub accepted: Vec<U256>,
+}
+
+#[derive(Default)]
+struct RngState {
+    inject: VecDeque<[u8; 32]>,
+    log: RngLog,
+    draws: u64,
+    step_limit: u64,
+}
+
+/// Panic payload used when more than `step_limit` candidates are drawn since the last reset.
+#[derive(Debug)]
+pub struct StepLimitExceeded(pub u64);
+
+thread_local! {
+    static RNG: RefCell<RngState> = RefCell::new(RngState::default());
+}
+
+/// Called by `sm9_random_u256` after the CSPRNG filled `buf`.
+pub fn candidate(buf: &mut [u8; 32]) {
+    let over = RNG.with(|s| {
+        let mut s = s.borrow_mut();
+        s.draws += 1;
+        if s.step_limit != 0 && s.draws > s.step_limit {
+            return Some(s.draws);
+        }
+        let inj = if let Some(b) = s.inject.pop_front() {
+            *buf = b;
+            true
+        } else {
+            false
+        };
+        s.log.candidates.push(*buf);
+        s.log.injected.push(inj);
+        None
+    });
+    if let Some(n) = over {
+        std::panic::panic_any(StepLimitExceeded(n));
+    }
+}
+
+/// Called by `sm9_random_u256` with the scalar it returns.
+pub fn accepted(v: &U256) {
+    RNG.with(|s| s.borrow_mut().log.accepted.push(*v));
+}
+
+/// Forget log, queue and draw counter; set the per-call draw limit (0 = unlimited).
+pub fn rng_reset(step_limit: u64) {
+    RNG.with(|s| {
+        let mut s = s.borrow_mut();
+        *s = RngState::default();
+        s.step_limit = step_limit;
+    });
+}
+
+/// Queue bytes that replace the next candidate(s).
+pub fn rng_inject(b: [u8; 32]) {
+    RNG.with(|s| s.borrow_mut().inject.push_back(b));
+}
+
+/// Number of queued overrides not yet consumed.
+pub fn rng_pending() -> usize {
+    RNG.with(|s| s.borrow().inject.len())
+}
+
+/// Take the log accumulated since the last reset/take.
+pub fn rng_take_log() -> RngLog {
+    RNG.with(|s| std::mem::take(&mut s.borrow_mut().log))
+}
+
+// ---- constructors / accessors (all values are Montgomery-form limbs, as stored) ----
+
+pub fn fp2_new(c: [U256; 2]) -> Fp2 {
+    Fp2 { c0: c[0], c1: c[1] }
+}
+
+pub fn fp2_parts(a: &Fp2) -> [U256; 2] {
+    [a.c0, a.c1]
+}
+
+pub fn fp4_new(c: [U256; 4]) -> Fp4 {
+    Fp4 {
+        c0: fp2_new([c[0], c[1]]),
+        c1: fp2_new([c[2], c[3]]),
+    }
+}
+
+pub fn fp4_parts(a: &Fp4) -> [U256; 4] {
+    [a.c0.c0, a.c0.c1, a.c1.c0, a.c1.c1]
+}
+
+pub fn fp12_new(c: [U256; 12]) -> Fp12 {
+    Fp12 {
+        c0: fp4_new([c[0], c[1], c[2], c[3]]),
+        c1: fp4_new([c[4], c[5], c[6], c[7]]),
+        c2: fp4_new([c[8], c[9], c[10], c[11]]),
+    }
+}
+
+pub fn fp12_parts(a: &Fp12) -> [U256; 12] {
+    let (a0, a1, a2) = (fp4_parts(&a.c0), fp4_parts(&a.c1), fp4_parts(&a.c2));
+    [
+        a0[0], a0[1], a0[2], a0[3], a1[0], a1[1], a1[2], a1[3], a2[0], a2[1], a2[2], a2[3],
+    ]
+}
+
+// ---- crate-private arithmetic ----
+
+pub fn fp_pow(a: &Fp, e: &U256) -> Fp {
+    crate::fields::fp::fp_pow(a, e)
+}
+
+pub fn fp_from_bytes(b: &[u8]) -> Fp {
+    crate::fields::fp::fp_from_bytes(b)
+}
+
+pub fn fp2_mul_fp(a: &Fp2, k: &Fp) -> Fp2 {
+    a.fp_mul_fp(k)
+}
+
+pub fn fp2_div(a: &Fp2, b: &Fp2) -> Fp2 {
+    a.div(b)
+}
+
+pub fn fp2_conjugate(a: &Fp2) -> Fp2 {
+    a.conjugate()
+}
+
+pub fn fp2_a_mul_u(a: &Fp2) -> Fp2 {
+    a.a_mul_u()
+}
+
+pub fn fp2_mul_u(a: &Fp2, b: &Fp2) -> Fp2 {
+    a.fp_mul_u(b)
+}
+
+pub fn fp2_sqr_u(a: &Fp2) -> Fp2 {
+    a.sqr_u()
+}
+
+pub fn fp4_mul_fp(a: &Fp4, k: &Fp) -> Fp4 {
+    a.fp_mul_fp(k)
+}
+
+pub fn fp4_mul_fp2(a: &Fp4, k: &Fp2) -> Fp4 {
+    a.fp_mul_fp2(k)
+}
+
+pub fn fp4_mul_v(a: &Fp4, b: &Fp4) -> Fp4 {
+    a.fp_mul_v(b)
+}
+
+pub fn fp4_a_mul_v(a: &Fp4) -> Fp4 {
+    a.a_mul_v()
+}
+
+pub fn fp4_sqr_v(a: &Fp4) -> Fp4 {
+    a.sqr_v()
+}
+
+pub fn fp4_conjugate(a: &Fp4) -> Fp4 {
+    a.conjugate()
+}
+
+pub fn fp12_pow(a: &Fp12, e: &U256) -> Fp12 {
+    a.pow(e)
+}
+
+pub fn fp12_line_mul(a: &Fp12, lw: &[Fp2; 3]) -> Fp12 {
+    a.fp_line_mul(lw)
+}
+
+/// k in {1, 2, 3, 6}: the p^k-power Frobenius map.
+pub fn fp12_frobenius(a: &Fp12, k: u32) -> Fp12 {
+    match k {
+        1 => a.verif_frobenius1(),
+        2 => a.fp12_frobenius2(),
+        3 => a.verif_frobenius3(),
+        6 => a.fp12_frobenius6(),
+        _ => panic!("unsupported frobenius power"),
+    }
+}
+
+pub fn fp12_final_exponent(a: &Fp12) -> Fp12 {
+    a.final_exponent()
+}
+
+pub fn pairing(q: &TwistPoint, p: &Point) -> Fp12 {
+    crate::points::sm9_u256_pairing(q, p)
+}
+
+pub fn twist_point_add_full(p1: &TwistPoint, p2: &TwistPoint) -> TwistPoint {
+    crate::points::twist_point_add_full(p1, p2)
+}
+
+pub fn twist_point_pi1(q: &TwistPoint) -> TwistPoint {
+    q.point_pi1()
+}
+
+pub fn twist_point_neg_pi2(q: &TwistPoint) -> TwistPoint {
+    q.point_neg_pi2()
+}
+
+pub fn point_from_bytes(b: &[u8]) -> Point {
+    Point::from_bytes(b)
+}
+
+pub fn hash1(id: &[u8], hid: u8) -> U256 {
+    crate::key::verif_hash1(id, hid)
+}
+
+pub fn hash2(data: &[u8], wbuf: &[u8]) -> U256 {
+    crate::key::verif_hash2(data, wbuf)
+}
+
+pub fn kdf(z: &[u8], klen: usize) -> Vec<u8> {
+    crate::key::verif_kdf(z, klen)
+}
+
+pub fn precomputed() -> &'static [[[u64; 4]; 128]; 37] {
+    &crate::sm9_p256_table::SM9_P256_PRECOMPUTED
+}
+
+pub fn generator_p1() -> Point {
+    crate::SM9_POINT_MONT_P1
+}
+
+pub fn generator_p2() -> TwistPoint {
+    crate::SM9_TWIST_POINT_MONT_P2
+}
